@@ -566,6 +566,7 @@ type vObs struct {
 	Vis     []vEntry            `json:"vis"`
 	Truth   map[string][]int    `json:"truth"`
 	Search  map[string][]int    `json:"search"`
+	Search2 []vSearch2          `json:"search2"` // negated and combined tag filters
 	Shown   map[string][]string `json:"shown"`  // per stream id: tags a fresh view reports as decided+matching
 	ShownAll map[string][]string `json:"shownAll"` // the same through a view that evaluates undecided tags on demand (PrefetchAllTags)
 	Dir     []string            `json:"dir"`
@@ -573,6 +574,15 @@ type vObs struct {
 	Infos   map[string]any      `json:"infos"`
 	Err     string              `json:"err"`
 	Status  map[string]any      `json:"status"`
+}
+
+// a search by tag filters: kind "not" (-A), "and" (A B), "andnot" (A -B), "or" (A or B)
+type vSearch2 struct {
+	Kind string `json:"kind"`
+	A    string `json:"a"`
+	B    string `json:"b"`
+	Res  []int  `json:"res"`
+	Err  string `json:"err"`
 }
 
 func vIDs(ss []*index.Stream) []int {
@@ -703,6 +713,42 @@ func (s *vScenario) observe(st *vState) *vObs {
 		}
 		sort.Ints(ids)
 		o.Search[n] = ids
+	}
+	// negated and combined tag filters (the engine inlines every undecided tag, also inverted and in products)
+	o.Search2 = []vSearch2{}
+	resolvedNames := []string{}
+	for _, n := range names {
+		if resolved[n] {
+			resolvedNames = append(resolvedNames, n)
+		}
+	}
+	search2 := func(kind, a, b, text string) {
+		x := vSearch2{Kind: kind, A: a, B: b, Res: []int{}}
+		q, err := query.Parse(text)
+		if err != nil {
+			x.Err = "parse: " + err.Error()
+		} else if len(v.indexes) != 0 {
+			if _, _, _, err := v.SearchStreams(ctx, q, func(sc StreamContext) error {
+				x.Res = append(x.Res, int(sc.Stream().ID()))
+				return nil
+			}); err != nil {
+				x.Err = err.Error()
+			}
+		}
+		sort.Ints(x.Res)
+		o.Search2 = append(o.Search2, x)
+	}
+	for i, a := range resolvedNames {
+		search2("not", a, "", vTagFilter(a, true))
+		for j, b := range resolvedNames {
+			if i < j {
+				search2("and", a, b, vTagFilter(a, false)+" "+vTagFilter(b, false))
+				search2("or", a, b, vTagFilter(a, false)+" or "+vTagFilter(b, false))
+			}
+			if i != j {
+				search2("andnot", a, b, vTagFilter(a, false)+" "+vTagFilter(b, true))
+			}
+		}
 	}
 	ents, _ := os.ReadDir(s.dirs["index"])
 	for _, e := range ents {
